@@ -5,7 +5,7 @@ from typing import TypeVar, Type, Any
 from .avp import Avp, AvpGrouped
 from .avp.errors import AvpDecodeError
 from .avp.generator import AvpGenType, generate_avps_from_defs
-from .packer import Packer, Unpacker
+from .packer import ConversionError, Packer, Unpacker
 
 
 class Message:
@@ -298,6 +298,15 @@ class MessageHeader:
         return self.as_packed(Packer()).get_buffer()
 
     def as_packed(self, packer: Packer) -> Packer:
+        if not 0 <= self.length <= 0xffffff:
+            # the length would spill into the version octet
+            raise ConversionError(
+                f"message is {self.length} bytes long, which does not fit "
+                f"the 24-bit message length field")
+        if not 0 <= self.command_code <= 0xffffff:
+            raise ConversionError(
+                f"command code {self.command_code} does not fit the 24-bit "
+                f"command code field")
         packer.pack_uint((self.version << 24) | self.length)
         packer.pack_uint((self.command_flags << 24) | self.command_code)
         packer.pack_uint(self.application_id)
